@@ -253,3 +253,51 @@ Proof.
   - intros a b _ _ H. exact H.
   - intros a b [<-|[<-|[]]] [<-|[<-|[]]]; vm_compute; congruence.
 Qed.
+
+(* ---------- per-node listing orders ---------- *)
+Lemma decide_ord_eq h v ord me :
+  inj_on h (available v) -> (forall n, In n (available v) <-> In n (ord me)) ->
+  decide_ord h v ord me = decide h v me.
+Proof.
+  intros Hi He. unfold decide_ord, decide.
+  rewrite <- (winner_set_ext h (available v) (ord me) Hi He). reflexivity.
+Qed.
+
+(* exactly one announcer whatever order each speaker lists the candidates in,
+   provided the hashes of the candidates are distinct (H-sha) *)
+Theorem exactly_one_any_order h v ord :
+  inj_on h (available v) -> (forall me n, In n (available v) <-> In n (ord me)) ->
+  (exists n, eligible v n) ->
+  exists w, decide_ord h v ord w = true /\ forall n, decide_ord h v ord n = true -> n = w.
+Proof.
+  intros Hi He Hex. destruct (exactly_one h v Hex) as [w [Hw Hu]].
+  exists w. split.
+  - rewrite (decide_ord_eq h v ord w Hi (He w)). exact Hw.
+  - intros n Hn. rewrite (decide_ord_eq h v ord n Hi (He n)) in Hn. apply Hu. exact Hn.
+Qed.
+
+(* without distinct hashes it is false: with a tie, two speakers that list the two
+   candidates in different orders both elect themselves *)
+Theorem exactly_one_ties_refuted :
+  exists (h : N -> N) (v : view) (ord : N -> list N),
+    (forall me n, In n (available v) <-> In n (ord me)) /\ (exists n, eligible v n) /\
+    decide_ord h v ord 1 = true /\ decide_ord h v ord 2 = true.
+Proof.
+  exists (fun _ => 0), f8_view, (fun me => if N.eqb me 1 then [1; 2] else [2; 1]).
+  assert (Hav : available f8_view = [1; 2]) by (vm_compute; reflexivity).
+  split; [|split; [|vm_compute; split; reflexivity]].
+  - intros me n. rewrite Hav. destruct (N.eqb me 1); cbn; tauto.
+  - exists 1. apply eligible_iff. rewrite Hav. split; [vm_compute; reflexivity|left; reflexivity].
+Qed.
+
+(* C12 on views: shrinking the eligible set without removing the announcer keeps it *)
+Theorem view_remove_nonowner h v v' w :
+  inj_on h (available v') ->
+  (forall n, eligible v' n -> eligible v n) -> eligible v' w ->
+  decide h v w = true -> decide h v' w = true.
+Proof.
+  intros Hi Hsub Hw Hd.
+  apply (decide_spec h v' w Hi). split; [exact Hw|].
+  intros m Hm. apply decide_true_iff in Hd. destruct Hd as [_ Hd].
+  eapply argmin_min; [exact Hd|]. apply Hsub in Hm. apply eligible_iff in Hm. tauto.
+Qed.
